@@ -136,7 +136,8 @@ Lemma ev_run_balance es : forall L M a,
 Proof.
   induction es as [|e es IH]; intros L M a; simpl.
   - intro H. inversion H. reflexivity.
-  - destruct e as [x|x]; simpl.
+  - assert (Cons : forall x, (if mem_z x L then None else Some (x :: L)) = ev_step L (ECons x)) by reflexivity.
+    destruct e as [x|x|x]; simpl.
     + destruct (mem_z x L) eqn:E; [discriminate|]. intro H. specialize (IH _ _ a H).
       unfold mem_z in IH at 1. simpl in IH. fold (mem_z a L) in IH.
       rewrite (Z.eqb_sym a x) in IH.
@@ -148,6 +149,12 @@ Proof.
       destruct (x =? a) eqn:Ex; simpl in *.
       * apply Z.eqb_eq in Ex. subst a. rewrite E. rewrite andb_false_r in IH. simpl in *. lia.
       * rewrite andb_true_r in IH. lia.
+    + destruct (mem_z x L) eqn:E; [discriminate|]. intro H. specialize (IH _ _ a H).
+      unfold mem_z in IH at 1. simpl in IH. fold (mem_z a L) in IH.
+      rewrite (Z.eqb_sym a x) in IH.
+      destruct (x =? a) eqn:Ex; simpl in *.
+      * apply Z.eqb_eq in Ex. subst a. rewrite E. simpl. lia.
+      * lia.
 Qed.
 
 Lemma ev_run_constructed_eq_destroyed es a :
@@ -162,3 +169,8 @@ Proof. intro H. simpl. apply mem_z_in in H. rewrite H. reflexivity. Qed.
 Lemma ev_no_double_destroy L a es :
   ~ In a L -> ev_run L (EDest a :: es) = None.
 Proof. intro H. simpl. apply mem_z_false in H. rewrite H. reflexivity. Qed.
+
+(* construction from constructor arguments obeys the same rule as copy construction *)
+Lemma ev_no_double_construct_args L a es :
+  In a L -> ev_run L (EArgs a :: es) = None.
+Proof. intro H. simpl. apply mem_z_in in H. rewrite H. reflexivity. Qed.
